@@ -61,6 +61,7 @@ package repository
 //@ func RepoData.ReadCommit
 //@   modifies nothing
 //@   ensures [the-commit-asked-for] result1 == nil ==> result.Hash == hash
+//@   ensures [parents-are-ancestors] result1 == nil ==> (forall j int :: { result.Parents[j] } 0 <= j && j < len(result.Parents) ==> anc(result.Parents[j], hash))
 // treeLen/treeName: the entries of the git tree behind a hash (the object store is content addressed and
 // immutable, so these are functions of the hash).
 //@ spec func treeLen(h Hash) int
@@ -310,3 +311,25 @@ package repository
 //@ func (*goGitConfigReader).ReadAll
 //@   props C14
 //@   assert at `return nil, nil` [nothing-answered-only-for-a-section-without-keys] len(split) >= 1 && !(exists k string :: (k in git.rawKeys) && strings.HasPrefix(k, split[0] + "."))
+
+// Listing the commits of a ref without native support (both backends use it): everything listed is the head of the
+// ref or one of its ancestors (C02/C03: merge decides "nothing to do" and "fast-forward" by looking a head up in
+// such a list - a commit that is not an ancestor must never be in it). Completeness is assumed, not proved.
+//@ func nonNativeListCommits
+//@   props C02 C03
+//@   requires repo != nil
+//@   modifies nothing
+//@   opt trusted_frame
+//@   ensures [sound] result1 == nil ==> (ref in refs) && (forall k int :: { result[k] } 0 <= k && k < len(result) ==> anc(result[k], refs[ref]))
+//@   loop 1
+//@     invariant (ref in refs) && refs == old(refs) && (stack == nil || fresh(stack)) && (result == nil || fresh(result)) && !samearray(stack, result)
+//@     invariant forall k int :: { stack[k] } 0 <= k && k < len(stack) ==> anc(stack[k], refs[ref])
+//@     invariant forall k int :: { result[k] } 0 <= k && k < len(result) ==> anc(result[k], refs[ref])
+//@   loop 2
+//@     invariant (ref in refs) && refs == old(refs) && (stack == nil || fresh(stack)) && (result == nil || fresh(result)) && !samearray(stack, result) && anc(hash, refs[ref])
+//@     invariant forall k int :: { stack[k] } 0 <= k && k < len(stack) ==> anc(stack[k], refs[ref])
+//@     invariant forall k int :: { result[k] } 0 <= k && k < len(result) ==> anc(result[k], refs[ref])
+//@     invariant forall j int :: { commit.Parents[j] } 0 <= j && j < len(commit.Parents) ==> anc(commit.Parents[j], refs[ref])
+//@   loop 3
+//@     invariant (ref in refs) && refs == old(refs) && (result == nil || fresh(result))
+//@     invariant forall k int :: { result[k] } 0 <= k && k < len(result) ==> anc(result[k], refs[ref])
